@@ -77,7 +77,7 @@ Pubs(ty)        == Table[ty].pubs                 \* sequence of the public meth
 SeqRange(s)     == {s[i] : i \in 1..Len(s)}
 SubFields(ty)   == {Table[ty].sub[i][1] : i \in 1..Len(Table[ty].sub)}
 SubType(ty, f)  == Table[ty].sub[CHOOSE i \in 1..Len(Table[ty].sub) : Table[ty].sub[i][1] = f][2]
-LockKind(ty)    == Table[ty].lockkind             \* "mutex" | "rwmutex" | "cond" | "none"
+LockKind(ty)    == Table[ty].lockkind             \* "mutex" | "rwmutex" | "cond" | "locker" (a lock by its use) | "none"
 \* the parameters of method m that hold another instance of a collection type: <<parameter, type>>
 PeersOf(ty, m)  == Table[ty].methods[m].peers
 PeerType(ty, m, p) == LET ps == PeersOf(ty, m) IN ps[CHOOSE i \in 1..Len(ps) : ps[i][1] = p][2]
